@@ -281,7 +281,7 @@ func (s *Streamer) parseEvents(ctx context.Context, events <-chan replication.Bi
 			}
 
 			if len(info.Columns()) != tm.CanBeNull.Count() {
-				return Position{},
+				return pos,
 					newError(fmt.Errorf("parseEvents the length of column in tableMap(%d) "+
 						"did not equal to the length of column in table info(%d)", tm.CanBeNull.Count(),
 						len(info.Columns())))
